@@ -41,6 +41,8 @@ type c11Case struct {
 	Ghost []bool `json:"ghost,omitempty"`
 	// TTL of cached locations: 0 forever, 1 never cached, 2 one millisecond.
 	TTL int `json:"ttl,omitempty"`
+	// Noise > 0: schedule noise during the concurrent run (see noise_test.go).
+	Noise int `json:"noise,omitempty"`
 }
 
 func genC11(t *rapid.T) c11Case {
@@ -49,6 +51,9 @@ func genC11(t *rapid.T) c11Case {
 	c.HTTP = rapid.IntRange(0, 2).Draw(t, "http") == 0
 	c.Check = rapid.IntRange(0, 2).Draw(t, "check") == 0
 	c.TTL = rapid.SampledFrom([]int{0, 0, 1, 2}).Draw(t, "ttl")
+	if rapid.Bool().Draw(t, "noise?") {
+		c.Noise = rapid.IntRange(1, 1000).Draw(t, "noise")
+	}
 	nc := rapid.IntRange(2, 8).Draw(t, "nclients")
 	for i := 0; i < nc; i++ {
 		n := rapid.IntRange(2, 9).Draw(t, fmt.Sprintf("c%d.n", i))
@@ -343,6 +348,10 @@ func runC11(c c11Case) *vlib.Outcome {
 	if err != nil {
 		o.Fail("ENGINE", "%v", err)
 		return o
+	}
+	if c.Noise > 0 {
+		_, end := startNoise(c.Noise)
+		defer end()
 	}
 	got := make([][]string, len(c.Clients))
 	var wg sync.WaitGroup
